@@ -700,7 +700,7 @@ func pickSamples(all []*Case, n int) []any {
 	return out
 }
 
-var raceFrameRe = regexp.MustCompile(`(?m)^\s+(github\.com/nlnwa/whatwg-url/[^\s(]+)\(`)
+var raceFrameRe = regexp.MustCompile(`(?m)^\s+(github\.com/nlnwa/whatwg-url/\S+?)\(\)\s*$`)
 
 func splitRaceBlocks(log string) []string {
 	var out []string
